@@ -11,5 +11,10 @@ func init() {
 			schedHook(site)
 		}
 	}
+	simyield.LockHook = func(delta int) {
+		if schedLockHook != nil {
+			schedLockHook(delta)
+		}
+	}
 	yieldBuild = true
 }
